@@ -168,6 +168,16 @@ class Check:
                 else:
                     verdict = verdict[2]
                 break
+            if verdict[0] == 'spurious' and uni.memo.get(('num_str_exact',)):
+                # the witness may rest on the unmodelled text of a number: look for one inside the region where number
+                # rendering is modelled exactly
+                r2, m2 = self.solve(uni, negated_property, *extra, *uni.memo[('num_str_exact',)])
+                self.extra['retries'] = self.extra.get('retries', 0) + 1
+                if r2 == 'sat':
+                    v2 = on_sat(m2)
+                    if v2[0] in ('violation', 'known'):
+                        verdict = v2
+                break
             if verdict[0] != 'refine':
                 break
             # the witness relied on an uninterpreted model value that reality contradicts: pin it and ask again
